@@ -52,6 +52,8 @@ Record stage := {
   s_mutex : option nat;              (* mutex_key *)
   s_choice : option nat;             (* deferred_choice_group *)
   s_max_jumps : option Z;            (* context._max_jumps *)
+  s_split_or : bool;                 (* split_type == OR *)
+  s_conds : list (nat * bool);       (* split_conditions: downstream stage -> value of its (literal) condition *)
   s_status : status;
   s_started : bool;                  (* start_time is not None *)
   s_ended : bool;                    (* end_time is not None *)
@@ -194,7 +196,7 @@ Definition ghost_start (i : nat) (jc : Z) (s : state) : state :=
 Definition st_set (st : stage) (status : status) (started ended : bool) (fired : bool) (branches : list nat)
            (has_exc : bool) (ctx outs : kv) (tasks : list task) : stage :=
   {| s_reqs := s_reqs st; s_join := s_join st; s_threshold := s_threshold st; s_cof := s_cof st; s_fp := s_fp st;
-     s_enabled := s_enabled st; s_mutex := s_mutex st; s_choice := s_choice st; s_max_jumps := s_max_jumps st;
+     s_enabled := s_enabled st; s_mutex := s_mutex st; s_choice := s_choice st; s_max_jumps := s_max_jumps st; s_split_or := s_split_or st; s_conds := s_conds st;
      s_status := status; s_started := started; s_ended := ended; s_version := s_version st + 1;
      s_fired := fired; s_branches := branches; s_bypass := s_bypass st; s_jump_count := s_jump_count st;
      s_buffered := s_buffered st; s_signal := s_signal st; s_has_exc := has_exc; s_plan_pending := s_plan_pending st; s_hydrated := s_hydrated st;
@@ -215,7 +217,7 @@ Definition st_exc (st : stage) : stage :=
 
 Definition st_ctl (st : stage) (bypass : bool) (jc : Z) (buffered : list nat) (sig : option nat) : stage :=
   {| s_reqs := s_reqs st; s_join := s_join st; s_threshold := s_threshold st; s_cof := s_cof st; s_fp := s_fp st;
-     s_enabled := s_enabled st; s_mutex := s_mutex st; s_choice := s_choice st; s_max_jumps := s_max_jumps st;
+     s_enabled := s_enabled st; s_mutex := s_mutex st; s_choice := s_choice st; s_max_jumps := s_max_jumps st; s_split_or := s_split_or st; s_conds := s_conds st;
      s_status := s_status st; s_started := s_started st; s_ended := s_ended st; s_version := s_version st;
      s_fired := s_fired st; s_branches := s_branches st; s_bypass := bypass; s_jump_count := jc;
      s_buffered := buffered; s_signal := sig; s_has_exc := s_has_exc st; s_plan_pending := s_plan_pending st; s_hydrated := s_hydrated st;
@@ -224,7 +226,7 @@ Definition st_ctl (st : stage) (bypass : bool) (jc : Z) (buffered : list nat) (s
 (* context change folded into a store that is already counted (no extra version bump) *)
 Definition with_ctx (st : stage) (ctx : kv) : stage :=
   {| s_reqs := s_reqs st; s_join := s_join st; s_threshold := s_threshold st; s_cof := s_cof st; s_fp := s_fp st;
-     s_enabled := s_enabled st; s_mutex := s_mutex st; s_choice := s_choice st; s_max_jumps := s_max_jumps st;
+     s_enabled := s_enabled st; s_mutex := s_mutex st; s_choice := s_choice st; s_max_jumps := s_max_jumps st; s_split_or := s_split_or st; s_conds := s_conds st;
      s_status := s_status st; s_started := s_started st; s_ended := s_ended st; s_version := s_version st;
      s_fired := s_fired st; s_branches := s_branches st; s_bypass := s_bypass st; s_jump_count := s_jump_count st;
      s_buffered := s_buffered st; s_signal := s_signal st; s_has_exc := s_has_exc st; s_plan_pending := s_plan_pending st; s_hydrated := s_hydrated st;
@@ -232,7 +234,7 @@ Definition with_ctx (st : stage) (ctx : kv) : stage :=
 
 Definition with_pending (st : stage) (p : bool) : stage :=
   {| s_reqs := s_reqs st; s_join := s_join st; s_threshold := s_threshold st; s_cof := s_cof st; s_fp := s_fp st;
-     s_enabled := s_enabled st; s_mutex := s_mutex st; s_choice := s_choice st; s_max_jumps := s_max_jumps st;
+     s_enabled := s_enabled st; s_mutex := s_mutex st; s_choice := s_choice st; s_max_jumps := s_max_jumps st; s_split_or := s_split_or st; s_conds := s_conds st;
      s_status := s_status st; s_started := s_started st; s_ended := s_ended st; s_version := s_version st;
      s_fired := s_fired st; s_branches := s_branches st; s_bypass := s_bypass st; s_jump_count := s_jump_count st;
      s_buffered := s_buffered st; s_signal := s_signal st; s_has_exc := s_has_exc st; s_plan_pending := p; s_hydrated := s_hydrated st;
@@ -240,7 +242,7 @@ Definition with_pending (st : stage) (p : bool) : stage :=
 
 Definition with_hydrated (st : stage) (ctx : kv) (h : list nat) : stage :=
   {| s_reqs := s_reqs st; s_join := s_join st; s_threshold := s_threshold st; s_cof := s_cof st; s_fp := s_fp st;
-     s_enabled := s_enabled st; s_mutex := s_mutex st; s_choice := s_choice st; s_max_jumps := s_max_jumps st;
+     s_enabled := s_enabled st; s_mutex := s_mutex st; s_choice := s_choice st; s_max_jumps := s_max_jumps st; s_split_or := s_split_or st; s_conds := s_conds st;
      s_status := s_status st; s_started := s_started st; s_ended := s_ended st; s_version := s_version st;
      s_fired := s_fired st; s_branches := s_branches st; s_bypass := s_bypass st; s_jump_count := s_jump_count st;
      s_buffered := s_buffered st; s_signal := s_signal st; s_has_exc := s_has_exc st; s_plan_pending := s_plan_pending st;
@@ -601,6 +603,30 @@ Definition join_tracking (s : state) (i : nat) (ds : list nat) : list commit :=
                          end
                      | None => [] end) ds.
 
+(* _apply_split_logic: AND-split activates every downstream; OR-split evaluates the per-downstream condition
+   (no condition = activated), and activates the first downstream when none matched.
+   (_record_activated_branches never finds the OR-join: the handler's execution object holds only the stage,
+   its upstreams and its synthetic children — so OR-joins fall back to AND semantics; modelled as that.) *)
+Definition cond_of (st : stage) (d : nat) : bool :=
+  match find (fun p => fst p =? d) (s_conds st) with Some p => snd p | None => true end.
+
+Definition apply_split (st : stage) (ds : list nat) : list nat * list nat :=
+  if negb (s_split_or st) || is_nil (s_conds st) then (ds, [])
+  else match filter (cond_of st) ds with
+       | [] => match ds with d0 :: r => ([d0], r) | [] => ([], []) end
+       | act => (act, filter (fun d => negb (cond_of st d)) ds)
+       end.
+
+Definition downstream_msgs (st : stage) (ds : list nat) : list msg :=
+  match ds with
+  | [] => [MCompleteWorkflow 0]
+  | _ => let sp := apply_split st ds in
+         match fst sp with
+         | [] => map (fun d => MStartStage d 0) ds
+         | act => map (fun d => MStartStage d 0) act ++ map MSkipStage (snd sp)
+         end
+  end.
+
 Definition handle_complete_stage (s : state) (id i : nat) : hres :=
   match get_stage s i with
   | None => ok []
@@ -617,8 +643,7 @@ Definition handle_complete_stage (s : state) (id i : nat) : hres :=
           if status_eqb x SUCCEEDED || status_eqb x FAILED_CONTINUE || status_eqb x SKIPPED then
             let ds := downstream s i in
             ok (join_tracking s i ds ++
-                [txn [c_put i st'; c_mark id;
-                      c_pushes (match ds with [] => [MCompleteWorkflow 0] | _ => map (fun d => MStartStage d 0) ds end)]])
+                [txn [c_put i st'; c_mark id; c_pushes (downstream_msgs st ds)]])
           else ok [txn [c_put i st'; c_push (MCancelStage i); c_push (MCompleteWorkflow 0)]]
   end.
 
